@@ -257,6 +257,51 @@ theorem nick_moves_identity (h : Registered x c old u) (hne : new ≠ old)
     rw [(nickWorld_frame _ _ _ _).1]; exact hc
   · rw [(nickWorld_frame _ _ _ _).1]; exact World.setConn_ids _ _
 
+/-- No `unwrap` of the Rust handler can fail on an accepted NICK (the panic flag stays clear). -/
+theorem nick_no_panic (h : Registered x c old u) (hne : new ≠ old)
+    (hfree : Map.contains new x.w.users = false) :
+    (processNick cfg c new msg x).w.panicked = none := by
+  rw [processNick_accept_w h.auth h.nick hne hfree h.user, nickWorld_panicked]
+  · exact h.inv.noPanic
+  · exact h.inv.userChansNodup old u h.user
+  · intro ch hch
+    exact (h.inv.memberSym old u ch h.user).mp ((KSet.mem_iff _ _).mpr hch)
+
+/-! ### concrete instance (hypotheses satisfiable, conclusions non-trivial)
+
+`Ex.w`: users alice (oper, wallops, away, invited to #inv, connection 1) and bob (connection 2),
+both on the secret channel `#c` with a topic; alice is founder+operator, bob has voice. -/
+
+def exX : Ctx := { w := Ex.w }
+def exMsg (n : Str) : Message := ⟨none, str "NICK", [n]⟩
+
+example : Registered exX 1 Ex.alice Ex.uAlice := ⟨by decide, by decide, by decide, Ex.inv⟩
+example : Ex.carol ≠ Ex.alice ∧ Map.contains Ex.carol exX.w.users = false := by decide
+example : Ex.bob ≠ Ex.alice ∧ Map.contains Ex.bob exX.w.users = true := by decide
+example : newSource exX 1 Ex.carol = str "carol!~al@h1" := by decide
+
+-- accepted: alice -> carol
+example : Map.lookup Ex.alice (processNick {} 1 Ex.carol (exMsg Ex.carol) exX).w.users = none := by
+  decide
+example : Map.lookup Ex.carol (processNick {} 1 Ex.carol (exMsg Ex.carol) exX).w.users =
+    some { Ex.uAlice with source := str "carol!~al@h1" } := by decide
+example : Map.lookup Ex.chan (processNick {} 1 Ex.carol (exMsg Ex.carol) exX).w.channels =
+    some { Ex.cChan with
+      users := [(Ex.bob, { voice := true }), (Ex.carol, { founder := true, operator := true })]
+      modes := { Ex.cChan.modes with founders := [Ex.carol], operators := [Ex.carol] } } := by
+  decide
+example : (processNick {} 1 Ex.carol (exMsg Ex.carol) exX).w.wallops = [Ex.carol] := by decide
+example : Map.lookup Ex.alice (processNick {} 1 Ex.carol (exMsg Ex.carol) exX).w.histories =
+    some [⟨str "al", str "h1", str "A"⟩] := by decide
+example : ((processNick {} 1 Ex.carol (exMsg Ex.carol) exX).conn 1).nick = some Ex.carol := by decide
+example : (processNick {} 1 Ex.carol (exMsg Ex.carol) exX).queued =
+    [(2, str ":alice!~al@h1 NICK carol"), (1, str ":alice!~al@h1 NICK carol")] := by decide
+example : (processNick {} 1 Ex.carol (exMsg Ex.carol) exX).direct = [] := by decide
+-- refused: alice -> bob
+example : (processNick {} 1 Ex.bob (exMsg Ex.bob) exX).direct =
+    [str ":irc.irc 433 alice bob :Nickname is already in use"] := by decide
+example : (processNick {} 1 Ex.bob (exMsg Ex.bob) exX).queued = [] := by decide
+
 /-! ## 3. the announcement -/
 
 /-- The line `:<old source> NICK <new>` (the received message re-rendered with the old source)
@@ -391,5 +436,15 @@ example : asciiUpper (str "nick") = str "NICK" := by decide
 example : validateUsername (str "a.b") = false := by decide
 example : validateUsername (str "#chan") = false := by decide
 example : validateUsername [] = false := by decide
+-- end to end through `handleLine` on the example world
+example : (handleLine {} 1 (str "NICK a.b") exX).direct =
+      [str ":irc.irc ERROR :Wrong parameter 0 in command 'NICK'"] ∧
+    (handleLine {} 1 (str "NICK a.b") exX).queued = [] := by decide
+example : (handleLine {} 1 (str "NICK carol") exX).queued =
+      [(2, str ":alice!~al@h1 NICK carol"), (1, str ":alice!~al@h1 NICK carol")] ∧
+    Map.lookup Ex.carol (handleLine {} 1 (str "NICK carol") exX).w.users =
+      some { Ex.uAlice with source := str "carol!~al@h1" } := by decide
+example : (handleLine {} 1 (str "NICK bob") exX).direct =
+      [str ":irc.irc 433 alice bob :Nickname is already in use"] := by decide
 
 end Irc.C15
